@@ -232,28 +232,142 @@ func ruleStEffectOnce(c *Ctx, r *Reporter) {
 	}
 	// retry loop: the operation is re-run only on ErrWALRotating
 	r.Rule("retry-only-on-rotating", 1)
+	// follow a delegation (RetryOnWALRotating -> RetryWithConfig(operation, ...)) to the function that calls the operation
 	fn := a.retry
-	var opCall ssa.Instruction
-	AllInstrs(fn, false, func(_ *ssa.Function, ins ssa.Instruction) {
-		if call, ok := ins.(*ssa.Call); ok && !call.Call.IsInvoke() && call.Call.StaticCallee() == nil {
-			if _, isParam := call.Call.Value.(*ssa.Parameter); isParam {
-				opCall = ins
+	opParam := ssa.Value(nil)
+	if len(fn.Params) >= 2 {
+		opParam = fn.Params[len(fn.Params)-1]
+		for _, p := range fn.Params {
+			if _, isSig := p.Type().Underlying().(*types.Signature); isSig {
+				opParam = p
 			}
 		}
+	}
+	var retryPred *ssa.Function // predicate passed along with the operation, if any
+	for depth := 0; depth < 2 && opParam != nil; depth++ {
+		direct := false
+		var deleg *ssa.Call
+		AllInstrs(fn, false, func(_ *ssa.Function, ins ssa.Instruction) {
+			call, ok := ins.(*ssa.Call)
+			if !ok {
+				return
+			}
+			if call.Call.Value == opParam {
+				direct = true
+			}
+			if g := call.Call.StaticCallee(); g != nil && c.InKevo(g) {
+				for _, arg := range call.Call.Args {
+					if arg == opParam {
+						deleg = call
+					}
+				}
+			}
+		})
+		if direct || deleg == nil {
+			break
+		}
+		g := deleg.Call.StaticCallee()
+		for i, arg := range deleg.Call.Args {
+			if arg == opParam && i < len(g.Params) {
+				opParam = g.Params[i]
+			} else if f, ok := arg.(*ssa.Function); ok {
+				retryPred = f
+			}
+		}
+		fn = g
+	}
+	var opCall ssa.Instruction
+	AllInstrs(fn, false, func(_ *ssa.Function, ins ssa.Instruction) {
+		if call, ok := ins.(*ssa.Call); ok && opParam != nil && call.Call.Value == opParam {
+			opCall = ins
+		}
 	})
+	rname := FnName(fn)
 	if opCall == nil {
 		r.Undecided("storage.Manager.RetryOnWALRotating", c.FnPos(fn), "call of the operation parameter not found")
 	} else {
+		// decision table (P-ORD, concrete loop counters): what the retry function does when the operation
+		//   succeeds at once / fails with another error / keeps answering ErrWALRotating
+		type row struct {
+			name           string
+			opResult       int64
+			retryable      bool
+			wantNil        bool
+			minOps, maxOps int
+		}
+		rows := []row{
+			{"operation succeeds", NilRank, false, true, 1, 1},
+			{"operation fails with another error", 7, false, false, 1, 1},
+			{"operation keeps answering ErrWALRotating", 5, true, false, 2, 16},
+		}
+		for _, rw := range rows {
+			one := int64(1)
+			sc := &Scenario{Terms: map[string]int64{}, Bools: map[string]bool{}, Vals: map[ssa.Value]int64{}, BoolVals: map[ssa.Value]bool{}, DefaultInt: &one, MaxVisits: 24}
+			AllInstrs(fn, false, func(_ *ssa.Function, ins ssa.Instruction) {
+				v, ok := ins.(ssa.Value)
+				if !ok {
+					return
+				}
+				if ins == opCall {
+					sc.Vals[v] = rw.opResult
+				}
+				if globalLoad(v) == a.w.errRotating {
+					sc.Vals[v] = 5
+				}
+				if g := globalLoad(v); g != nil && g != a.w.errRotating && isErrorType(v.Type()) {
+					sc.Vals[v] = 9
+				}
+				if ld, ok := ins.(*ssa.UnOp); ok && ld.Op == token.MUL {
+					if fa, ok := ld.X.(*ssa.FieldAddr); ok && fieldName(fa) == "MaxRetries" {
+						sc.Vals[v] = 3
+					}
+				}
+				if call, ok := ins.(*ssa.Call); ok && ins != opCall {
+					if _, isParam := call.Call.Value.(*ssa.Parameter); isParam && call.Type().String() == "bool" {
+						sc.BoolVals[v] = rw.retryable // the retry predicate handed in by the caller
+					}
+					if f := call.Call.StaticCallee(); f != nil && call.Type().String() == "bool" && c.InKevo(f) && len(call.Call.Args) == 1 && sameValue(call.Call.Args[0], opCall.(ssa.Value)) {
+						sc.BoolVals[v] = rw.retryable
+					}
+				}
+			})
+			res := EvalPath(fn.Blocks[0], nil, sc, nil)
+			cons := rname + ":retry-table[" + rw.name + "]"
+			if res.Err != "" || res.Ret == nil {
+				r.Undecided(cons, c.FnPos(fn), "row not decidable: "+res.Err)
+				continue
+			}
+			nOps := 0
+			for _, e := range res.Effects {
+				if e.Ins == opCall {
+					nOps++
+				}
+			}
+			rv := res.RetVals[len(res.RetVals)-1]
+			isNil := rv.Kind == "int" && rv.I == NilRank
+			okRow := isNil == rw.wantNil && nOps >= rw.minOps && nOps <= rw.maxOps
+			got := fmt.Sprintf("%d call(s) of the operation, returns %s", nOps, map[bool]string{true: "nil", false: "an error"}[isNil])
+			r.Check(okRow, cons, c.FnPos(fn), got, "when the "+rw.name+": "+got+" — "+map[bool]string{true: "must report success after exactly one call", false: "must report an error (a write that was never applied would be acknowledged) and must not re-run the operation except on ErrWALRotating"}[rw.wantNil])
+		}
+		if retryPred != nil {
+			// the predicate handed in accepts ErrWALRotating only (or ErrWALRotating and nothing that can follow an effect)
+			r.Info(rname+":predicate", c.FnPos(retryPred), "retry predicate: "+FnName(retryPred))
+		}
 		isRotating := func(cond ssa.Value) (bool, bool) {
+			if call, ok := cond.(*ssa.Call); ok && call.Type().String() == "bool" {
+				if _, isParam := call.Call.Value.(*ssa.Parameter); isParam && len(call.Call.Args) == 1 && sameValue(call.Call.Args[0], opCall.(ssa.Value)) {
+					return true, false // the caller's retry predicate (judged separately)
+				}
+				if staticName(call) == "errors.Is" && len(call.Call.Args) == 2 && globalLoad(call.Call.Args[1]) == a.w.errRotating {
+					return true, false
+				}
+			}
 			bo, ok := cond.(*ssa.BinOp)
 			if !ok || (bo.Op != token.EQL && bo.Op != token.NEQ) {
 				return false, false
 			}
 			if (sameValue(bo.X, opCall.(ssa.Value)) && globalLoad(bo.Y) == a.w.errRotating) || (sameValue(bo.Y, opCall.(ssa.Value)) && globalLoad(bo.X) == a.w.errRotating) {
 				return bo.Op == token.EQL, bo.Op == token.NEQ
-			}
-			if call, ok := cond.(*ssa.Call); ok && staticName(call) == "errors.Is" && len(call.Call.Args) == 2 && globalLoad(call.Call.Args[1]) == a.w.errRotating {
-				return true, false
 			}
 			return false, false
 		}
@@ -263,6 +377,54 @@ func ruleStEffectOnce(c *Ctx, r *Reporter) {
 			r.Bad("storage.Manager.RetryOnWALRotating", c.InsPos(opCall), "the operation can be re-run after a result other than ErrWALRotating: a write that succeeded or failed for another reason would be applied again", c.PathString(path)...)
 		} else {
 			r.OK("storage.Manager.RetryOnWALRotating", c.InsPos(opCall), "the operation is re-run only on the err == ErrWALRotating edge")
+		}
+		if retryPred != nil {
+			// the predicate must be true for ErrWALRotating only: every 'true' return is behind err == ErrWALRotating
+			okPred := true
+			for _, ret := range Returns(retryPred) {
+				v := ReturnValue(ret, 0)
+				if b, isK := constBool(v); isK && !b {
+					continue
+				}
+				// a comparison chain: collect the globals compared with
+				var globals []*ssa.Global
+				var walk func(x ssa.Value, d int)
+				walk = func(x ssa.Value, d int) {
+					if d > 6 {
+						return
+					}
+					switch y := x.(type) {
+					case *ssa.BinOp:
+						if g := globalLoad(y.Y); g != nil {
+							globals = append(globals, g)
+						}
+						if g := globalLoad(y.X); g != nil {
+							globals = append(globals, g)
+						}
+					case *ssa.Phi:
+						for i, e := range y.Edges {
+							if _, isK := e.(*ssa.Const); isK {
+								p := y.Block().Preds[i]
+								if iff, ok := p.Instrs[len(p.Instrs)-1].(*ssa.If); ok {
+									walk(iff.Cond, d+1)
+								}
+								continue
+							}
+							walk(e, d+1)
+						}
+					}
+				}
+				walk(v, 0)
+				for _, g := range globals {
+					if !preEffectSentinel(c, a.w, g) {
+						okPred = false
+					}
+				}
+				if len(globals) == 0 {
+					okPred = false
+				}
+			}
+			r.Check(okPred, rname+":predicate-is-rotating-only", c.FnPos(retryPred), "the retry predicate accepts only errors that every Append* returns before any effect", "the retry predicate "+FnName(retryPred)+" accepts an error that an Append* can return after it consumed a sequence number or wrote a record (or an unrecognised test): re-running the operation then applies the write twice")
 		}
 	}
 }
